@@ -39,6 +39,7 @@ type Step struct {
 	W      int    `json:"w,omitempty"`      // pool writer index, -9 = nil writer
 	Level  int    `json:"level,omitempty"`
 	AsOpt  []Step `json:"opts,omitempty"` // for new: writer operations passed as New(...) options
+	Via    string `json:"via,omitempty"`  // for new with a parent: "" parent.New(name, opts...) | WithSkip | WithLevel | WithAttrs (options applied as methods afterwards)
 }
 
 func (s Step) String() string {
@@ -46,6 +47,9 @@ func (s Step) String() string {
 	case "new":
 		if s.Parent == -2 {
 			return fmt.Sprintf("L%d=slog.Default()(ops=%v)", s.Logger, s.AsOpt)
+		}
+		if s.Via != "" {
+			return fmt.Sprintf("L%d=L%d.%s(..)(then=%v)", s.Logger, s.Parent, s.Via, s.AsOpt)
 		}
 		return fmt.Sprintf("L%d=new(parent=%d,opts=%v)", s.Logger, s.Parent, s.AsOpt)
 	case "probe":
@@ -207,6 +211,23 @@ func interp(script []Step, skipUngiven bool) (obs []Obs) {
 					loggers[s.Logger] = d
 				} else if s.Parent < 0 {
 					loggers[s.Logger] = slog.New(args...)
+				} else if s.Via != "" {
+					// a child made by a With... method: it starts without writers of its own, like any other child
+					var ch slog.Logger
+					switch s.Via {
+					case "WithSkip":
+						ch = loggers[s.Parent].WithSkip(100 + caseSerial*16 + s.Logger) // one child per count is kept by the parent: a count no earlier case used
+					case "WithLevel":
+						ch = loggers[s.Parent].WithLevel(slog.AlwaysLevel)
+					default:
+						ch = loggers[s.Parent].WithAttrs(slog.NewAttr("via", s.Logger))
+					}
+					ch.SetLevel(slog.AlwaysLevel)
+					ch.SetColorMode(false)
+					for _, os := range s.AsOpt {
+						apply(ch, os)
+					}
+					loggers[s.Logger] = ch
 				} else {
 					loggers[s.Logger] = loggers[s.Parent].New(args...)
 				}
@@ -474,6 +495,7 @@ func genScript(t *rapid.T, maxLoggers, maxSteps int) []Step {
 			s.Parent = -2 // operate on the package's default logger: other loggers must not notice
 		} else if nLoggers > 0 && rapid.Bool().Draw(t, "child") {
 			s.Parent = rapid.IntRange(0, nLoggers-1).Draw(t, "parent")
+			s.Via = rapid.SampledFrom([]string{"", "", "WithSkip", "WithLevel", "WithAttrs"}).Draw(t, "via")
 		}
 		m := newWset()
 		if rapid.IntRange(0, 2).Draw(t, "withOpts") == 0 {
